@@ -20,6 +20,10 @@ func main() {
 		cmdCheck(os.Args[2:])
 	case "list":
 		cmdList(os.Args[2:])
+	case "ledger":
+		cmdLedger(os.Args[2:])
+	case "selftest":
+		cmdSelftest(os.Args[2:])
 	default:
 		fmt.Fprintln(os.Stderr, "unknown command", os.Args[1])
 		os.Exit(2)
@@ -129,4 +133,3 @@ func modelSummary(m string, max int) string {
 	return strings.Join(out, "\n")
 }
 
-func cmdCheck(args []string) {}
